@@ -49,21 +49,34 @@ func runPool(t *testing.T, scAny any, trace bool) *Outcome {
 		}
 		pool := absnfs.VerifWorkerPool(nfs)
 		var running, nextID simrt.Counter
-		// The bound: the pool's configured size, or - while some Resize is in progress - the largest of the sizes
-		// before and after any Resize that has been called and has not returned yet. (Resizes by several actors
-		// take effect in the order the pool serialises them, which need not be the order in which they return.)
-		inOld := make([]simrt.Counter, len(sc.Actors))
-		inNew := make([]simrt.Counter, len(sc.Actors))
-		var settled simrt.Counter
-		settled.Store(int64(sc.Workers))
+		// The bound. Resizes by several actors take effect in the order the pool serialises them, which need not
+		// be the order in which they are called or return, so the harness cannot know THE configured size. It
+		// knows which sizes are possibly in force: the target of every Resize that is in progress or has returned
+		// and is not certainly superseded - i.e. no other Resize was called after it returned and has itself
+		// returned. Tasks may run concurrently up to the largest of those.
+		const maxRz = 64
+		var rzInv, rzRet, rzN [maxRz]simrt.Counter
+		var rzCount simrt.Counter
+		rzN[0].Store(int64(sc.Workers))
+		rzInv[0].Store(1)
+		rzRet[0].Store(2)
+		rzCount.Store(1)
 		boundNow := func() int64 {
-			b := settled.Load()
-			for i := range inOld {
-				if v := inOld[i].Load(); v > b {
-					b = v
+			n := int(rzCount.Load())
+			var b int64
+			for k := 0; k < n; k++ {
+				rk := rzRet[k].Load()
+				superseded := false
+				if rk != 0 {
+					for j := 0; j < n; j++ {
+						if j != k && rzInv[j].Load() > rk && rzRet[j].Load() != 0 {
+							superseded = true
+							break
+						}
+					}
 				}
-				if v := inNew[i].Load(); v > b {
-					b = v
+				if !superseded && rzN[k].Load() > b {
+					b = rzN[k].Load()
 				}
 			}
 			return b
@@ -150,17 +163,17 @@ func runPool(t *testing.T, scAny any, trace bool) *Outcome {
 						if n <= 0 {
 							n = 1
 						}
-						before, _, _ := pool.Stats()
-						inOld[ai].Store(int64(before))
-						inNew[ai].Store(n)
+						slot := int(rzCount.Add(1)) - 1
+						if slot >= maxRz {
+							o.Inconclusive = "too many resizes for the harness"
+							return
+						}
+						rzN[slot].Store(n)
+						rzInv[slot].Store(simrt.Stamp())
 						lastAdmin.Store("Resize")
 						simrt.Event("actor %d Resize %d", ai, op.N)
 						pool.Resize(op.N)
-						// what is configured now (another actor's Resize may have come after this one inside the pool)
-						after, _, _ := pool.Stats()
-						settled.Store(int64(after))
-						inOld[ai].Store(0)
-						inNew[ai].Store(0)
+						rzRet[slot].Store(simrt.Stamp())
 					}
 				}
 			})
